@@ -41,8 +41,7 @@ THEOREMS = [
     _S + "C14_rejects",
     _S + "C14_mode_set_old_refuted",
     _C + "C14_collection",
-    _C + "C14_append_renumber_link_refuted",
-    _C + "C14_append_renumber_link_partial",
+    _C + "C14_append_renumber_atomic",
 ]
 
 MODEL_ERRS = {
@@ -1355,7 +1354,7 @@ def corpus_cases():
                 st("Surface.periodic_surface", 1, REF("surface", 2)),
             ],
         },
-        # append_renumber links the object before it can fail (known finding C14-F1)
+        # append_renumber used to link the object before it could fail (was finding C14-F1, repaired: regression case)
         {"source": g0, "script": [st("Collection.append_renumber", 0, TUP(NEW("cell", 1, 1), I(0)), "zero-step")]},
     ]
 
